@@ -246,6 +246,14 @@ def runFrom (ls : LeafScore) (so : ShapeOracle) (ctx : Ctx) (q : Query) : Nat â†
 def run (ls : LeafScore) (so : ShapeOracle) (ctx : Ctx) (q : Query) (idx : Index) : PL :=
   runFrom ls so ctx q 0 idx
 
+/-- The query whose matcher `Query.docs(searcher)` reads (`query/compound.py`): `Require.docs` is
+    `And(self.subqueries).docs(searcher)`, `AndMaybe.docs` is `self.subqueries[0].docs(searcher)`; every
+    other class inherits `Query.docs`: `self.matcher(searcher, searcher.boolean_context()).all_ids()`. -/
+def docsForm : Query â†’ Query
+  | .require a b => .and [a, b] 1
+  | .andMaybe a _ => docsForm a
+  | q => q
+
 /-! ### decidable versions of the theorems' hypotheses (evaluated by the driver on every case) -/
 
 /-- every field boost and token boost is positive, no token is the empty term -/
